@@ -8,5 +8,7 @@ CHECKS = {
     "C11": dict(engine="e2_audit", bins=["e2_audit"], level="exploration", ns=True, prebuild=["prebuild-ebpf"], tools=["unshare", "ip", "clang"]),
     "C14": dict(engine="e2_transparent", bins=["e2_transparent"], level="exploration", ns=True, prebuild=["prebuild-ebpf"], tools=["unshare", "ip", "clang"]),
     "C15": dict(engine="e2_transparent", bins=["e2_transparent"], level="exploration", ns=True, prebuild=["prebuild-ebpf"], tools=["unshare", "ip", "clang"]),
+    "C20": dict(engine="e1_health", packages=["ext_harness"], bins=["e1_health"], level="model_checking"),
+    "C19": dict(engine="e1_disk", bins=["e1_disk"], level="model_checking"),
     "C02": dict(engine="e1_rbac", bins=["e1_rbac"], level="exploration"),
 }
